@@ -146,7 +146,7 @@ func (fr *frame) runDefer(d *deferred) {
 			fr.panicking = true
 			fr.panic = recover()
 			switch fr.panic.(type) {
-			case pathAbort, engineError, threadKill:
+			case pathAbort, engineError, threadKill, fsCrash:
 				panic(fr.panic)
 			}
 		}
@@ -566,7 +566,7 @@ func runFrame(fr *frame) {
 		fr.panicking = true
 		fr.panic = recover()
 		switch fr.panic.(type) {
-		case pathAbort, engineError, threadKill:
+		case pathAbort, engineError, threadKill, fsCrash:
 			panic(fr.panic) // engine-level: the path is over, target defers are not run
 		}
 		if lastPanicWhere == "" {
